@@ -246,6 +246,10 @@ func gwHalf[T any](response bool, limit func(hint reflect.Value) int, fields ...
 		}
 		return Decoded{V: out, Err: err, Consumed: -1}
 	}
+	if !response {
+		// a relay loop reads every request of a kind into one object
+		e.DecodeInto = func(b []byte, p reflect.Value) error { return gwDecode(b, p.Interface().(gateway.Object), false) }
+	}
 	if limit != nil {
 		e.MaxLen = -1 // value dependent, see LimitFor
 		limits[e.Name] = limit
